@@ -11,26 +11,39 @@ import gen
 import mockca
 import vlib
 from ext import csrreq
+from ext import idnagen
 from ext import iptext
 
 FINISH = dict(
     level="proof",
     trusted_base=[
         "Lean 4.33 kernel; axioms of every theorem within {propext, Classical.choice, Quot.sound}",
-        "Lean compiler for acmed_model (judges Spec.C01Ident.holds, Spec.C01.holds; Model.Idna for the "
+        "Lean compiler for acmed_model (judges Spec.C01Ident.holds, Spec.C01.holds; Model.Idna + Model.Lower for the "
         "name-by-name comparison)",
         "the in-crate probe ops idna / ident (real to_idna, Identifier::new, get_tls_alpn_name); the real daemon "
         "against the mock CA; vhelper's DER parsing of the CSR (SANs, subject, signature algorithm, "
-        "self-signature, public key) with OpenSSL; Python's punycode codec and ipaddress module for the "
-        "expected normal forms",
-        "modelled, not verified: ASN.1 encoding of the CSR (OpenSSL), Unicode lower-casing (parameter of the "
-        "model); IpAddr parsing/printing is Model.IpText (Rust's core::net parser and Display, transliterated), tied "
+        "self-signature, public key) with OpenSSL; Python's punycode codec (both directions), str.lower / casefold "
+        "(judge of py/ext/idnagen.py) and ipaddress module for the expected normal forms",
+        "Unicode lower-casing: Gen/Lower.lean is tabulated on every run from the COMPILED std by executing every scalar "
+        "value (probe op lower_tables: char::to_lowercase, and the skipped / cased sets of the final-sigma rule read off "
+        "str::to_lowercase in both directions); the string-level rule (Model.Lower.lowerFull, a transliteration of "
+        "alloc/src/str.rs to_lowercase) is tied by correspondence on generated labels, not proved about std",
+        "modelled, not verified: ASN.1 encoding of the CSR (OpenSSL); IpAddr parsing/printing is Model.IpText (Rust's "
+        "core::net parser and Display, transliterated), tied "
         "to the real Identifier::new by correspondence on generated spellings (py/ext/iptext.py)",
     ],
     rule="(i) names: generated DNS names (plain, wildcard, IDN, mixed case, 1..5 labels, labels up to 70 "
-         "characters) and IP addresses in accepted textual forms through the real Identifier::new, compared "
-         "with Model.Idna.toIdna / reverse names and with the Python expectation; (ii) flows: certificates with "
-         "1..8 identifiers mixing those kinds, 6 (quick) / 7 key types x 3 CSR digests, random subsets of the 15 "
+         "characters) and py/ext/idnagen.py — DNS names over every script with case (Latin incl. U+0130 / U+0131 / sharp s "
+         "/ title-case digraphs, Greek with capital sigma in 20 named contexts, Cyrillic, Armenian, Georgian, Cherokee, "
+         "Deseret, Adlam, Osage, ..., Kelvin / Angstrom / Ohm signs, full-width and enclosed letters, random rows of the "
+         "lower-casing table), caseless scripts, decomposed spellings, ZWJ / ZWNJ / soft hyphen, U+3002, labels of 63 / 64 "
+         "characters, XN-- prefixes, empty labels, dots at the ends, wildcards: through the REAL to_idna and "
+         "Model.Lower.toIdnaFull (compared exactly), the real output judged label by label with Python's own punycode "
+         "codec and Unicode data; the model's compiled table look-ups against the compiled std on EVERY scalar value; "
+         "IP addresses in accepted textual forms through the real Identifier::new, compared "
+         "with reverse names; (ii) flows: certificates with "
+         "1..8 identifiers mixing those kinds (a third of the DNS names from the idnagen pool: IDN, sigma contexts, "
+         "mixed case; expectation = the model's A-label), 6 (quick) / 7 key types x 3 CSR digests, random subsets of the 15 "
          "subject attributes, kp_reuse on/off with a usable, unusable or absent pre-existing key file; the "
          "newOrder payload and the CSR received by the mock CA are judged by Spec.C01Ident.holds and "
          "Spec.C01.holds (key file read when the post-operation hook runs). non-trivial = more than one "
@@ -69,7 +82,33 @@ KT_DISPLAY = {"ecdsa_p256": "ecdsa-p256", "ecdsa_p384": "ecdsa-p384", "ecdsa_p52
 DIGESTS = ["sha256", "sha384", "sha512"]
 
 
+# DNS names of the flow scenarios: raw -> the MODEL's A-label (Model.Lower / Model.Idna), for names on which the real
+# to_idna, the model and the independent judge of py/ext/idnagen.py agree (a disagreement is reported there)
+NAME_EXPECT = {}
+IDN_POOL = []
+PLAIN_POOL = []
+NAME_CTX = []
+
+
+def prepare_names(ctx):
+    NAME_CTX[:] = [ctx]
+    plain = {}
+    while len(plain) < (120 if ctx.quick() else 1500):
+        plain[gen_dns(ctx.rng)] = {"kind:c01-labels"}
+    NAME_EXPECT.update(idnagen.evaluate(ctx, sorted(plain.items()), prefix="flow-names:"))
+    PLAIN_POOL[:] = [k for k in sorted(plain) if NAME_EXPECT.get(k)]
+    IDN_POOL[:] = idnagen.pool(ctx, 40 if ctx.quick() else 600, wildcard_ok=True, prefix="flow-names:")
+    NAME_EXPECT.update({x["raw"]: x["alabel"] for x in IDN_POOL})
+
+
 def expected_dns(name):
+    """The lower-case A-label form expected for a configured name: the model's value (see NAME_EXPECT); a name not
+    prepared in advance is evaluated on the spot."""
+    if name not in NAME_EXPECT and NAME_CTX:
+        NAME_EXPECT.update(idnagen.evaluate(NAME_CTX[0], [(name, {"kind:derived"})], prefix="flow-names:"))
+    if NAME_EXPECT.get(name):
+        return NAME_EXPECT[name]
+    # no agreed value (reported by idnagen.evaluate, or a replay without preparation): Python's own reading
     out = []
     for lab in name.split("."):
         out.append(lab.lower() if all(ord(c) < 128 for c in lab) else "xn--" + lab.lower().encode("punycode").decode())
@@ -94,24 +133,10 @@ def names_part(ctx):
     names += [gen_dns(rng) for _ in range(n)]
     impl = vlib.probe([{"op": "idna", "s": s} for s in names])
     mod = vlib.model([{"op": "idna", "s": s} for s in names])
-    for s, i, m in zip(names, impl, mod):
-        ctx.case({"idna": s}, nontrivial=any(ord(c) > 127 or c.isupper() for c in s))
-        ctx.count("idna:" + ("ok" if isinstance(i, dict) and "ok" in i else "rejected"))
-        if not isinstance(i, dict) or "panic" in i or i.get("died"):
-            ctx.violation("to_idna(%r) crashed: %s" % (s, i), {"op": "idna", "s": s})
-        elif i != m:
-            ctx.disagreements += 1
-            # the model is proved to produce lower-case A-labels (idna_label_shape): judge the output shape
-            exp = None
-            try:
-                exp = expected_dns(s)
-            except Exception:
-                pass
-            if "ok" in i and exp is not None and i["ok"] != exp and len(max(s.split("."), key=len)) <= 63:
-                ctx.violation("to_idna(%r) = %r, the lower-case A-label form is %r" % (s, i["ok"], exp),
-                              {"op": "idna", "s": s, "impl": i, "model": m})
-            else:
-                ctx.broke("correspondence", "to_idna differs from Model.Idna on %r" % s, {"impl": i, "model": m})
+    # compared exactly with the model (Model.Lower.toIdnaFull) and judged independently of the model's lower-casing
+    # (py/ext/idnagen.py: judge_name); then the generator of that module: tables (exhaustive), str::to_lowercase, to_idna
+    idnagen.evaluate(ctx, [(s, {"kind:c01-names"}) for s in names], prefix="idna:", impl=impl, mod=mod)
+    idnagen.extend(ctx)
     # IP identifiers and reverse names
     ips = list(IPS) + [str(ipaddress.IPv4Address(rng.getrandbits(32))) for _ in range(60)] + \
         [str(ipaddress.IPv6Address(rng.getrandbits(128))) for _ in range(60)] + \
@@ -142,7 +167,7 @@ def gen_cert(rng, idx, quick):
             exp = str(ipaddress.ip_address(raw))
             typ, chall = "ip", rng.choice(["http-01", "tls-alpn-01"])
         else:
-            raw = gen_dns(rng)
+            raw = rng.choice(IDN_POOL)["raw"] if IDN_POOL and rng.random() < 0.33 else rng.choice(PLAIN_POOL or [gen_dns(rng)])
             exp = expected_dns(raw)
             typ = "dns"
             chall = "dns-01" if raw.startswith("*.") else rng.choice(["http-01", "dns-01", "tls-alpn-01"])
@@ -343,6 +368,12 @@ def flows_part(ctx, helper, root):
         sc = r["sc"]
         nontriv = len(sc["ids"]) > 1 or any(i["raw"] != i["expected"] for i in sc["ids"])
         ctx.case({k: sc[k] for k in ("ids", "key_type", "digest", "attrs", "kp_reuse", "old_key")}, nontrivial=nontriv)
+        for i in sc["ids"]:
+            if i["type"] == "dns":
+                ctx.count("flow:dns:" + ("non-ascii" if any(ord(c) > 127 for c in i["raw"]) else
+                                         "ascii-mixed-case" if i["raw"] != i["expected"] else "ascii-plain"))
+                if idnagen.SIGMA in i["raw"]:
+                    ctx.count("flow:dns:capital-sigma")
         ctx.count("flow:ids:%d" % len(sc["ids"]))
         ctx.count("flow:key:" + sc["key_type"])
         ctx.count("flow:attrs:%d" % len(sc["attrs"]))
@@ -383,6 +414,7 @@ def run(ctx):
     vlib.build_acmed()
     vlib.build_helper()
     gen.gen_tables()
+    gen.gen_lower()
     ctx.prove()
     helper = mockca.Helper()
     root = os.path.join(vlib.BUILD, "scratch", "c01-%d" % os.getpid())
@@ -390,16 +422,20 @@ def run(ctx):
     try:
         names_part(ctx)
         iptext.extend(ctx)
+        prepare_names(ctx)
         flows_part(ctx, helper, root)
     finally:
         helper.close()
         shutil.rmtree(root, ignore_errors=True)
-    ctx.assumptions = ["generated non-ASCII letters stay inside the ranges where Python's str.lower and Rust's "
-                       "to_lowercase agree", "IPv4-mapped IPv6 forms are not generated (Python 3.11 prints them differently)"]
+    ctx.assumptions = ["reading of 'A-label': xn-- + RFC 3492 punycode of the label lower-cased by str::to_lowercase; no NFC / "
+                       "UTS-46 mapping (the code does none)",
+                       "IPv4-mapped IPv6 forms are not generated (Python 3.11 prints them differently)"]
     return ctx.finish(**FINISH)
 
 
 def replay(ctx):
+    if idnagen.is_replay(ctx.replay):
+        return idnagen.replay_file(ctx.replay)
     with open(ctx.replay) as f:
         r = json.load(f)
     obj = r.get("replay") or r.get("context") or r
